@@ -13,7 +13,9 @@ EXPLANATION = ("run_forever's argument validation is executed with ping_interval
                "stops answering (T-silent) or answers every ping after a symbolic latency below the timeout (T-live), with "
                "unrelated data frames arriving at symbolic times, so that every phase between the select loop and the ping thread "
                "inside an ordering class is covered by one query.")
-ASSUMPTIONS = simnet.ASSUMPTIONS + ["T-silent / T-live: (interval, timeout) pairs on a grid; horizon of a few pings; ties between simultaneous "
+ASSUMPTIONS = simnet.ASSUMPTIONS + ["T-live is also run with every transport write as a preemption point of the lock-step kernel (the reading loop may "
+                                    "process an immediate reply before the writer continues)",
+                                    "T-silent / T-live: (interval, timeout) pairs on a grid; horizon of a few pings; ties between simultaneous "
                                     "wake-ups are explored in both orders"]
 
 
@@ -106,7 +108,7 @@ def t_silent(I, T, answered, ndata):
     cover("silent")
 
 
-def t_live(I, T, ndata, payload="hb"):
+def t_live(I, T, ndata, payload="hb", yield_on_send=False):
     """peer answers every ping after a symbolic latency in [0, T); data frames at symbolic times: never a timeout"""
     I, T = Fraction(I), Fraction(T)
     lat = sx.sym_real("lat")
@@ -121,6 +123,7 @@ def t_live(I, T, ndata, payload="hb"):
     spec = {"script": script, "on_frame_bytes": _pong_responder(10 ** 6, lat)}
     run = AppRun([spec], step_budget=4000)
     run.net.ping_times = []
+    run.net.yield_on_send = yield_on_send
     run.k.at(run.k.t0 + horizon, lambda: [s.deliver(close_frame(1000)) for s in run.net.socks if not s.closed])
     try:
         run.run(ping_interval=I, ping_timeout=T, ping_payload=payload)
@@ -153,6 +156,8 @@ def obligations(tier):
     pairs = [(str(Fraction(r) * t), str(t)) for t in GRID_T for r in GRID_R]
     silent = [dict(I=i, T=t, answered=a, ndata=n) for (i, t) in pairs for a in ((0, 1, 2) if thorough else (0, 1)) for n in ((0, 1, 2) if thorough else (0, 1))]
     live = [dict(I=i, T=t, ndata=n) for (i, t) in pairs for n in ((0, 1, 2) if thorough else (0, 1))]
+    # the same with every transport write a preemption point (the reader may handle an immediate pong before the ping thread continues)
+    live += [dict(I=i, T=t, ndata=n, yield_on_send=True) for (i, t) in pairs for n in ((0, 1) if thorough else (0,))]
     return [
         Obligation("T-args", t_args, [dict(t_none=tn, i_kind=ik) for tn in (False, True) for ik in ("sym", "none", "zero")],
                    bounds="ping_interval and ping_timeout arbitrary reals in [-5, 50] (also None / 0): unbounded density, one query per branch",
